@@ -20,6 +20,7 @@ fn base_plan(first: Vec<Place>) -> Plan {
         hello: sched::default_hello(),
         reply_pad: vec![],
         fail_after_write: vec![],
+        charref_ids: false,
     }
 }
 
@@ -192,6 +193,8 @@ fn gen_plan(r: &mut Prng, c18: bool) -> Plan {
             plan.fail_after_write.push(a);
         }
     }
+    // the echoed message-id spelled with a character reference (any XML writer may do that)
+    plan.charref_ids = r.chance(1, 10);
     // large replies (a configuration dump runs to megabytes): behaviour must not depend on size
     if !cfg!(miri) && r.chance(1, 6) {
         for _ in 0..r.range(1, 3) {
@@ -347,6 +350,11 @@ pub fn run(cfg: &Cfg, c18: bool) -> i32 {
                     plans.push((format!("n{n}-{place:?}-large-first-reply"), big.clone()));
                     big.reply_pad = vec![300, 70_000];
                     plans.push((format!("n{n}-{place:?}-large-second-reply"), big));
+                }
+                if n == 2 && !c18 {
+                    let mut cr = p.clone();
+                    cr.charref_ids = true;
+                    plans.push((format!("n{n}-{place:?}-message-ids-echoed-with-character-references"), cr));
                 }
                 if n >= 2 && !c18 {
                     // a send that fails after the request went out; the server answers it all the same
